@@ -4,6 +4,7 @@ From Coq.Strings Require Import Byte.
 From Model Require Import Bytes Utf8 Frame Parser FrameParser Conn.
 From Proofs Require Import ConnFacts TraceFacts ViolationFacts GenTie DeliveryFacts StreamViolation StreamViolation2.
 From Gen Require Import GenFrame GenStatus.
+From Props Require C01.
 Import ListNotations.
 Open Scope N_scope.
 
@@ -158,6 +159,20 @@ Proof.
   split; [left; exists x03; split; reflexivity|].
   split; [right; left; exists x03, xe8, [xff]; repeat split; reflexivity|reflexivity].
 Qed.
+
+(* the whole-stream statements evaluated on a concrete case: after the six frames of C01.fs0 (4 messages) on the connection
+   C01.c0 -- which meets the hypotheses, see C01_nonvacuous -- a frame announcing 2^63 bytes, a masked binary frame and a Close
+   with the reserved code 1005 each give exactly one non-critical ProtocolError, with the four messages delivered before it *)
+Example C04_stream_examples :
+  let hbin := {| h_fin := true; h_r1 := false; h_r2 := false; h_r3 := false; h_op := 2; h_mask := true |} in
+  let pre := encode_all C01.fs0 C01.lfs0 in
+  let r1 := feedf C01.cf0 C01.app0 C01.c0 (pre ++ hdr_bytes_m hbin L64 9223372036854775808 ++ [x00]) in
+  let r2 := feedf C01.cf0 C01.app0 C01.c0 (pre ++ hdr_bytes_m hbin L7 3 ++ [x01; x02; x03; x04] ++ [x61; x62; x63] ++ [x00]) in
+  let r3 := feedf C01.cf0 C01.app0 C01.c0 (pre ++ enc_frame (mk_close [x03; xed]) L16 ++ [x00]) in
+  perrors (k_tr C01.c0) = [] /\
+  perrors (k_tr (fst r1)) = [false] /\ perrors (k_tr (fst r2)) = [false] /\ perrors (k_tr (fst r3)) = [false] /\
+  length (msg_events (k_tr (fst r1))) = 4%nat /\ length (msg_events (k_tr (fst r2))) = 4%nat /\ length (msg_events (k_tr (fst r3))) = 4%nat.
+Proof. vm_compute. repeat split; reflexivity. Qed.
 
 Example C04_nonvacuous :
   header_violation false {| h_fin := true; h_r1 := false; h_r2 := false; h_r3 := false; h_op := 9; h_mask := false |} 126 /\
